@@ -303,7 +303,18 @@ func c06MustClose(c *core.Ctx, rule string) {
 	for _, fn := range c.P.ModuleFunctions("ociserver") {
 		for _, ci := range facts.CallsIn(fn) {
 			call, ok := ci.(*ssa.Call)
-			if !ok || !call.Call.IsInvoke() {
+			if !ok {
+				continue
+			}
+			// an acquisition: the backend hands out a reader/writer, or a helper of
+			// the server passes one on to its caller
+			what := ""
+			if call.Call.IsInvoke() {
+				what = call.Call.Method.Name()
+			} else if h := call.Call.StaticCallee(); h != nil && h.Blocks != nil && h.Pkg == fn.Pkg {
+				what = "via " + fnName(h)
+			}
+			if what == "" {
 				continue
 			}
 			res := call.Call.Signature().Results()
@@ -312,7 +323,7 @@ func c06MustClose(c *core.Ctx, rule string) {
 			}
 			n++
 			c.Analysed(facts.FuncName(fn))
-			key := facts.FuncName(fn) + "/" + call.Call.Method.Name() + "/closed"
+			key := facts.FuncName(fn) + "/" + what + "/closed"
 			// tracked resource and error values (with one level of phis)
 			res0 := map[ssa.Value]bool{}
 			err1 := map[ssa.Value]bool{}
@@ -349,7 +360,21 @@ func c06MustClose(c *core.Ctx, rule string) {
 				}
 				return true
 			}
-			if exit, leak := facts.ReachesWithout(call, facts.IsExit, isClose, edge); leak {
+			// returning the reader/writer hands the obligation to the caller (whose call of
+			// this function is itself an acquisition, above)
+			leakingExit := func(in ssa.Instruction) bool {
+				if !facts.IsExit(in) {
+					return false
+				}
+				if r, ok := in.(*ssa.Return); ok && len(r.Results) == 2 && fn.Signature.Results().Len() == 2 && isCloserIface(fn.Signature.Results().At(0).Type()) {
+					v := facts.RetVal(r, 0)
+					if res0[v] || res0[facts.Resolve(v)] {
+						return false
+					}
+				}
+				return true
+			}
+			if exit, leak := facts.ReachesWithout(call, leakingExit, isClose, edge); leak {
 				c.Fail(rule, key, call.Pos(), "the "+res.At(0).Type().String()+" obtained here is not closed on the path reaching "+c.P.Pos(exit.Pos())+": the backend's reader/writer leaks once the response is complete")
 			} else {
 				c.OK(rule, key, call.Pos(), "closed (directly or by a deferred Close) on every path on which it is non-nil")
@@ -484,6 +509,30 @@ func c06Headers(c *core.Ctx, rule string, m *serverModel) {
 			},
 			Edge: func(b *ssa.BasicBlock, idx int, t facts.Tokens) bool {
 				for _, cd := range facts.EdgeConds(b, idx) {
+					// `err := f(); if err == nil { err = g() }; if err != nil { return err }`: what
+					// the path already knows about the value the error variable holds on it
+					if x, isNil, ok := facts.NilCheck(cd); ok {
+						px := facts.PathValue(x)
+						feeds := px != x
+						if refs := px.Referrers(); refs != nil && !feeds {
+							for _, r := range *refs {
+								if _, isPhi := r.(*ssa.Phi); isPhi {
+									feeds = true
+								}
+							}
+						}
+						if feeds && px.Parent() != nil {
+							k := "ν:" + px.Parent().Name() + "." + px.Name()
+							if (isNil && t[k+"=non"]) || (!isNil && t[k+"=nil"]) {
+								return false // contradicts an earlier test on this path
+							}
+							if isNil {
+								t[k+"=nil"] = true
+							} else {
+								t[k+"=non"] = true
+							}
+						}
+					}
 					// conditions on server options
 					if base, fld, ok := facts.FieldOf(facts.Resolve(cd.V)); ok {
 						if _, f0, ok2 := facts.FieldOf(base); ok2 && f0 == "opts" {
